@@ -24,11 +24,14 @@ package neo
 
 // ---- cross-chain message authentication (C24) -------------------------------------------------------
 //@ func getConsensusValByChainId
-//@   property C24
+//@   property C24, C19
 //@   mode abstract
 //@   requires native != nil
 //@   modifies nothing
 //@   ensures err == nil ==> r0 != nil
+//@   ensures err != nil ==> r0 == nil
+//@   -- storage invariant (assumed): a stored record was written by putConsensusValByChainId and decodes (C04 round trip)
+//@   assumes Store[peerKey(chainID)] != None ==> err == nil
 
 //@ func VerifyCrossChainMsgSig
 //@   property C24
@@ -47,3 +50,11 @@ package neo
 //@   ensures[c24-tracked-script] err == nil ==> hashEq
 //@   -- ... and the multi-signature witness built from the message's own scripts verifies the unsigned message
 //@   ensures[c24-witness] err == nil ==> neoWitnessOK(gmsg, ginv, gver)
+
+//@ func putConsensusValByChainId
+//@   property C19
+//@   mode abstract
+//@   requires native != nil && neoConsensus != nil
+//@   modifies Store
+//@   ensures err == nil
+//@   ensures Store == upd(old(Store), peerKey(old(neoConsensus.ChainID)), Store[peerKey(old(neoConsensus.ChainID))]) && Store[peerKey(old(neoConsensus.ChainID))] != None
